@@ -14,6 +14,8 @@ var generators = map[string]func(*Gen){
 	"C02": genC02,
 	"C03": genC03,
 	"C04": genC04,
+	"C05": genC05,
+	"C06": genC06,
 	"C08": genC08,
 	"C11": genC11,
 	"C12": genC12,
